@@ -76,6 +76,14 @@ def run_one(sid, tier="quick"):
     return res
 
 
+# fixes whose reversal no longer breaks the property because a later fix covers the same ground
+SUPERSEDED = {
+    "2e20a38": {"expect_quiet": True, "checks": ["C01"],
+                "superseded": "the table-level writability pre-check is redundant since ff19998: Table.__setitem__ now rolls every "
+                              "column back on ANY exception, AliasError included, so reverting the pre-check no longer leaves a partial write"},
+}
+
+
 def main():
     if len(sys.argv) >= 2 and sys.argv[1] == "run":
         ids = sys.argv[2:] or sorted(d for d in os.listdir(SEEDED) if os.path.exists(os.path.join(SEEDED, d, "patch.diff")))
@@ -124,11 +132,27 @@ def main():
             h = parts[2]
             d = os.path.join(SEEDED, f"revert-{h}")
             os.makedirs(d, exist_ok=True)
-            diff = sh(f"git -C /repo diff {h} {h}~1").stdout
+            # the change that undoes fix `h` ON TOP OF the current HEAD (later fixes may have touched the same lines):
+            # `git revert --no-commit` in a throw-away worktree; a fix that cannot be reverted cleanly any more is marked so
+            wt = f"/tmp/serif-revert-{os.getpid()}"
+            sh(f"git -C /repo worktree remove --force {wt}")
+            sh(f"git -C /repo worktree add --detach {wt} HEAD")
+            rv = sh(f"git -C {wt} revert --no-commit {h}")
+            diff = sh(f"git -C {wt} diff HEAD").stdout if rv.returncode == 0 else ""
+            sh(f"git -C /repo worktree remove --force {wt}")
+            sh("git -C /repo worktree prune")
+            meta = {"property": prop, "origin": "reverse of fix commit " + h, "summary": " ".join(parts[3:]),
+                    "needs_to_manifest": "see summary (the original defect)", "author": "main session (not an independent sub-agent)"}
+            meta.update(SUPERSEDED.get(h, {}))
+            if not diff.strip():
+                meta["not_revertible"] = "git revert conflicts with later fixes in the same lines; not run"
+                if os.path.exists(os.path.join(d, "patch.diff")):
+                    os.unlink(os.path.join(d, "patch.diff"))
+                json.dump(meta, open(os.path.join(d, "meta.json"), "w"), indent=1)
+                print("not revertible", d)
+                continue
             open(os.path.join(d, "patch.diff"), "w").write(diff)
-            json.dump({"property": prop, "origin": "reverse of fix commit " + h, "summary": " ".join(parts[3:]),
-                       "needs_to_manifest": "see summary (the original defect)", "author": "main session (not an independent sub-agent)"},
-                      open(os.path.join(d, "meta.json"), "w"), indent=1)
+            json.dump(meta, open(os.path.join(d, "meta.json"), "w"), indent=1)
             print("wrote", d)
 
 
